@@ -113,6 +113,79 @@ fn totality(ctx: &mut Ctx, doc: &Tree, text: &str) {
     }
 }
 
+/// arithmetic is parsed but not evaluable: a filter (or predicate) that contains it next to an
+/// ordinary condition must be reported as an error whenever it is evaluated for some item,
+/// whatever the ordinary condition says about that item, and must be accepted silently only
+/// when there is no item to evaluate it for
+fn arith_is_reported(ctx: &mut Ctx, doc: &Tree, path: &JPath, rng: &mut Rng) {
+    use refpath::{Expr, Lit, Operand, Step};
+    if refpath::has_arith(path) {
+        return;
+    }
+    let arith = |from_root: bool| Expr::ArithBin(*['+', '-', '*', '/', '%'].iter().nth((doc.nodes() + from_root as usize) % 5).unwrap(), Operand::Path(from_root, vec![]), Operand::Lit(Lit::Num(crate::tree::Num::U(1))));
+    let combine = |e: &Expr, from_root: bool, k: usize| match k {
+        0 => Expr::Or(Box::new(e.clone()), Box::new(arith(from_root))),
+        1 => Expr::And(Box::new(e.clone()), Box::new(arith(from_root))),
+        2 => Expr::Or(Box::new(arith(from_root)), Box::new(e.clone())),
+        _ => Expr::And(Box::new(arith(from_root)), Box::new(e.clone())),
+    };
+    let k = rng.below(4);
+    let (new_path, evaluated) = match path {
+        JPath::Steps(steps) => match steps.last() {
+            Some(Step::Filter(e)) => {
+                let prefix = &steps[..steps.len() - 1];
+                let frontier = match refpath::eval_steps(prefix, doc, doc) {
+                    Ok(v) => v.len(),
+                    Err(_) => return,
+                };
+                let mut st = prefix.to_vec();
+                st.push(Step::Filter(Box::new(combine(e, false, k))));
+                (JPath::Steps(st), frontier > 0)
+            }
+            _ => return,
+        },
+        JPath::Predicate(e) => (JPath::Predicate(combine(e, true, k)), true),
+    };
+    let text = refpath::render(&new_path, &refpath::PLAIN, rng);
+    let enc = refcodec::encode(doc);
+    let info = || format!("path={:?} doc={} ; the filter is evaluated for {} item", text, doc.show(), if evaluated { "at least one" } else { "no" });
+    ctx.count(if evaluated { "arith.evaluated" } else { "arith.never-evaluated" });
+    let mode = rng.below(4);
+    match select(text.as_bytes(), &enc, mode) {
+        Sel::ParseErr => note_parse_reject(ctx, &text),
+        Sel::Panic(p) => ctx.panic_violation("select(arithmetic)", &p, &info),
+        Sel::Err(e) => {
+            if !evaluated {
+                ctx.violation("select(arithmetic)/err-without-evaluation", || format!("Err({}) ; {}", e, info()));
+            }
+        }
+        Sel::Ok(got) => {
+            if evaluated {
+                ctx.violation("select(arithmetic)/ok-where-error-is-due", || format!("{} ; {}", show_sel(&got), info()));
+            } else if !got.data.is_empty() && mode < 2 {
+                ctx.violation("select(arithmetic)/items-without-evaluation", || format!("{} ; {}", show_sel(&got), info()));
+            }
+        }
+    }
+    if matches!(new_path, JPath::Steps(_)) {
+        match exists(text.as_bytes(), &enc) {
+            Err(p) => ctx.panic_violation("exists(arithmetic)", &p, &info),
+            Ok(Some(Ok(v))) => {
+                if evaluated {
+                    ctx.violation("exists(arithmetic)/ok-where-error-is-due", || format!("exists={} ; {}", v, info()));
+                }
+            }
+            _ => {}
+        }
+    } else {
+        match predicate_match(text.as_bytes(), &enc) {
+            Err(p) => ctx.panic_violation("predicate_match(arithmetic)", &p, &info),
+            Ok(Some(Ok(v))) => ctx.violation("predicate_match(arithmetic)/ok-where-error-is-due", || format!("predicate_match={} ; {}", v, info())),
+            _ => {}
+        }
+    }
+}
+
 pub fn gen_doc(rng: &mut Rng, i: u64) -> Tree {
     if i % 3001 == 11 {
         return gen::big_doc(rng, i % 2 == 0);
@@ -146,6 +219,7 @@ pub fn gen_doc(rng: &mut Rng, i: u64) -> Tree {
 pub fn run(ctx: &mut Ctx) {
     let n = if ctx.miri { ctx.miri_cases(25) } else { ctx.budget(500_000, 10_000_000) };
     let cfg = PathCfg { max_steps: 4, filters: true, big_indices: false };
+    let mon = super::routes::Monitor::new(super::routes::PATHS);
     for i in 0..n {
         if !ctx.next_case() {
             return;
@@ -153,11 +227,20 @@ pub fn run(ctx: &mut Ctx) {
         let mut rng = ctx.rng.fork();
         let doc = gen_doc(&mut rng, i);
         let pg = PathGen::new(&doc);
-        for _ in 0..3 {
+        for round in 0..3 {
             let path = if rng.chance(5, 6) { pg.guided_path(&mut rng, &cfg, &doc) } else { pg.path(&mut rng, &cfg) };
             let style = if rng.chance(1, 4) { refpath::RStyle { spacing: rng.bool(), kwcase: false, quoting: true, esc: true } } else { refpath::PLAIN };
             let text = refpath::render(&path, &style, &mut rng);
             check(ctx, &doc, &path, &text);
+            if round == 0 && !ctx.miri {
+                arith_is_reported(ctx, &doc, &path, &mut rng);
+            }
+            if round == 1 && i % 2 == 0 && doc.nodes() < 300 && !matches!(refpath::eval(&path, &doc), Outcome::Unspecified) {
+                // the same selection on the text of the document and on reused buffers
+                let plain = refpath::render(&path, &refpath::PLAIN, &mut rng);
+                let args = super::routes::path_args(&doc, plain.clone(), plain, &mut rng);
+                mon.check(ctx, &doc, &doc, &args, &mut rng);
+            }
             ctx.sample(|| format!("{} on {}", text, doc.show()));
         }
         if i % 4 == 0 {
